@@ -135,9 +135,16 @@ type r2parseState struct {
 	ret       []*r2parseVal
 	made      []*r2parseVal // results #0 of the parser-method calls made on this path (in order)
 	retSet    bool
-	pend      []r2parsePend        // observations of the running rule, decided at the path end
-	bindSeq   map[types.Object]int // local variable -> capture counter at its last assignment on this path
-	ctrl      []r2parseCtrl        // regions whose execution was decided by a loop-carried value
+	pend      []r2parsePend                    // observations of the running rule, decided at the path end
+	bindSeq   map[types.Object]int             // local variable -> capture counter at its last assignment on this path
+	ctrl      []r2parseCtrl                    // regions whose execution was decided by a loop-carried value
+	errAlias  map[types.Object]r2parseErrAlias // boolean local -> the error test it holds
+}
+
+type r2parseErrAlias struct {
+	err types.Object
+	neq bool
+	seq int // capture counter when the alias was taken (stale once err is reassigned)
 }
 
 type r2parseCtrl struct {
@@ -179,6 +186,10 @@ func r2parseClone(s *r2parseState) *r2parseState {
 	n.made = append([]*r2parseVal(nil), s.made...)
 	n.pend = append([]r2parsePend(nil), s.pend...)
 	n.ctrl = append([]r2parseCtrl(nil), s.ctrl...)
+	n.errAlias = make(map[types.Object]r2parseErrAlias, len(s.errAlias))
+	for k, v := range s.errAlias {
+		n.errAlias[k] = v
+	}
 	n.bindSeq = make(map[types.Object]int, len(s.bindSeq))
 	for k, v := range s.bindSeq {
 		n.bindSeq[k] = v
@@ -449,7 +460,7 @@ func (run *r2parseRun) touch(st *r2parseState, p token.Pos) {
 func (run *r2parseRun) walk() {
 	e := run.e
 	info := e.info
-	st := &r2parseState{env: map[types.Object]*r2parseVal{}, errNil: map[types.Object]int8{}, calls: map[types.Object]*r2parseCallRec{}, loops: map[token.Pos]*r2parseCap{}, bindSeq: map[types.Object]int{}}
+	st := &r2parseState{env: map[types.Object]*r2parseVal{}, errNil: map[types.Object]int8{}, calls: map[types.Object]*r2parseCallRec{}, loops: map[token.Pos]*r2parseCap{}, bindSeq: map[types.Object]int{}, errAlias: map[types.Object]r2parseErrAlias{}}
 	entryCur := &r2parseCap{off: 0}
 	entryPrev := &r2parseCap{off: -1}
 	st.disp = entryCur
@@ -509,7 +520,17 @@ func (run *r2parseRun) walk() {
 			return st, true
 		},
 		Exit: func(st *r2parseState, o outcome) { run.exit(st, o) },
+		// the next iteration starts afresh
+		OnLoopIter: func(loop ast.Stmt, before, after *r2parseState) { delete(after.loops, loop.Pos()) },
 	}
+	// a loop without a condition is only left from inside its body: the exit taken after a
+	// complete iteration is seen in the second one
+	ast.Inspect(body, func(n ast.Node) bool {
+		if f, ok := n.(*ast.ForStmt); ok && f.Cond == nil {
+			w.LoopUnroll = 2
+		}
+		return true
+	})
 	w.Run(body, st)
 	run.paths = w.Paths
 	if w.Overflow {
@@ -1162,6 +1183,17 @@ func (run *r2parseRun) stmt(st *r2parseState, s ast.Stmt) {
 			for i, rhs := range x.Rhs {
 				vals[i] = run.eval(st, rhs, false)
 			}
+			for i, rhs := range x.Rhs {
+				if lobj := run.objOf(x.Lhs[i]); lobj != nil {
+					delete(st.errAlias, lobj)
+					if eobj, neq, ok := run.errTest(rhs); ok && x.Tok != token.ADD_ASSIGN {
+						defer func(l, eo types.Object, n bool) {
+							st.seq++
+							st.errAlias[l] = r2parseErrAlias{err: eo, neq: n, seq: st.seq}
+						}(lobj, eobj, neq)
+					}
+				}
+			}
 			for i, l := range x.Lhs {
 				v := vals[i]
 				if x.Tok != token.ASSIGN && x.Tok != token.DEFINE {
@@ -1264,6 +1296,10 @@ func (run *r2parseRun) cond(st *r2parseState, cond ast.Expr, taken bool) bool {
 			}
 			return v == taken
 		}
+		// a boolean local that holds `err != nil` / `err == nil`
+		if a, ok := st.errAlias[info.Uses[id]]; ok && st.bindSeq[a.err] < a.seq {
+			return run.condErr(st, a.err, a.neq == taken)
+		}
 	}
 	if be, ok := cond.(*ast.BinaryExpr); ok && (be.Op == token.NEQ || be.Op == token.EQL) {
 		var idE ast.Expr
@@ -1274,20 +1310,7 @@ func (run *r2parseRun) cond(st *r2parseState, cond ast.Expr, taken bool) bool {
 		}
 		if idE != nil {
 			if obj := run.objOf(idE); obj != nil && e.sp.isErrPtr(obj.Type()) {
-				nonNil := (be.Op == token.NEQ) == taken
-				if k, ok := st.errNil[obj]; ok {
-					return (k == 2) == nonNil
-				}
-				if nonNil {
-					st.errNil[obj] = 2
-					if rec := st.calls[obj]; rec != nil {
-						st.D = rec.dBefore
-						st.note("%s failed", exprStr(idE))
-					}
-				} else {
-					st.errNil[obj] = 1
-				}
-				return true
+				return run.condErr(st, obj, (be.Op == token.NEQ) == taken)
 			}
 		}
 		if _, _, ok := e.px.kindAtom(info, cond); ok {
@@ -1307,6 +1330,45 @@ func (run *r2parseRun) cond(st *r2parseState, cond ast.Expr, taken bool) bool {
 	}
 	st.note("%s:%v", spShort(exprStr(cond)), taken)
 	return true
+}
+
+// condErr decides `err != nil` (nonNil) / `err == nil` for the error variable obj.
+func (run *r2parseRun) condErr(st *r2parseState, obj types.Object, nonNil bool) bool {
+	if k, ok := st.errNil[obj]; ok {
+		return (k == 2) == nonNil
+	}
+	if nonNil {
+		st.errNil[obj] = 2
+		if rec := st.calls[obj]; rec != nil {
+			st.D = rec.dBefore
+			st.note("%s failed", obj.Name())
+		}
+	} else {
+		st.errNil[obj] = 1
+	}
+	return true
+}
+
+// errTest decodes `<error variable> !=/== nil`.
+func (run *r2parseRun) errTest(x ast.Expr) (types.Object, bool, bool) {
+	be, ok := ast.Unparen(x).(*ast.BinaryExpr)
+	if !ok || (be.Op != token.NEQ && be.Op != token.EQL) {
+		return nil, false, false
+	}
+	var idE ast.Expr
+	if spIsNil(run.e.info, be.Y) {
+		idE = be.X
+	} else if spIsNil(run.e.info, be.X) {
+		idE = be.Y
+	}
+	if idE == nil {
+		return nil, false, false
+	}
+	obj := run.objOf(idE)
+	if obj == nil || !run.e.sp.isErrPtr(obj.Type()) {
+		return nil, false, false
+	}
+	return obj, be.Op == token.NEQ, true
 }
 
 func (run *r2parseRun) exit(st *r2parseState, o outcome) {
@@ -1333,6 +1395,10 @@ func (run *r2parseRun) exit(st *r2parseState, o outcome) {
 				} else if obj := run.objOf(last); obj != nil {
 					if st.errNil[obj] == 2 {
 						success = false
+					} else if st.errNil[obj] == 0 && len(o.ret.Results) > 1 && r2parseEmptyResult(e.info, o.ret.Results[0]) {
+						// `return T{}, err` / `return nil, err` with an error variable of unknown
+						// nil-ness: the error-return idiom (a successful path returns what it built)
+						success = false
 					}
 				} else if u, ok := ast.Unparen(last).(*ast.UnaryExpr); ok && u.Op == token.AND {
 					success = false
@@ -1343,6 +1409,16 @@ func (run *r2parseRun) exit(st *r2parseState, o outcome) {
 	if run.obs.exit != nil {
 		run.obs.exit(st, o, success, st.ret)
 	}
+}
+
+// r2parseEmptyResult: x is nil or an empty composite literal T{}.
+func r2parseEmptyResult(info *types.Info, x ast.Expr) bool {
+	x = ast.Unparen(x)
+	if spIsNil(info, x) {
+		return true
+	}
+	lit, ok := x.(*ast.CompositeLit)
+	return ok && len(lit.Elts) == 0
 }
 
 func (run *r2parseRun) consumerCall(x ast.Expr) (*ast.CallExpr, *types.Func) {
